@@ -44,7 +44,7 @@ def classes():
 
     class C09Sub(C09Mid):             # only this class of the hierarchy overrides the change handler
       def _on_change(self, field_updates):
-        LOG.append((OBJ_IDS.get(id(self)), field_updates))
+        on_event(OBJ_IDS.get(id(self)), field_updates)
         return super()._on_change(field_updates)
 
       def _on_bound(self):
@@ -75,7 +75,7 @@ def classes():
 
     class C09InnerSub(C09Inner):      # typed objects that override the handlers
       def _on_change(self, field_updates):
-        LOG.append((OBJ_IDS.get(id(self)), field_updates))
+        on_event(OBJ_IDS.get(id(self)), field_updates)
         return super()._on_change(field_updates)
 
       def _on_bound(self):
@@ -84,7 +84,7 @@ def classes():
 
     class C09DefSub(C09Def):
       def _on_change(self, field_updates):
-        LOG.append((OBJ_IDS.get(id(self)), field_updates))
+        on_event(OBJ_IDS.get(id(self)), field_updates)
         return super()._on_change(field_updates)
 
       def _on_bound(self):
@@ -137,14 +137,41 @@ def obj_free(t):
   return not is_node(t) or (t['k'] != 'obj' and all(obj_free(c) for _, c in t['items']))
 
 
+def is_missing(v):
+  return isinstance(v, dict) and bool(v.get('missing'))
+
+
 def mirror_write(node, key, v):
-  for it in node['items']:
+  """-> did the write change anything (an update is reported)?"""
+  for i, it in enumerate(node['items']):
     if it[0] == key:
+      if is_missing(v):
+        if node['k'] == 'list':
+          if is_missing(it[1]):
+            return False
+          it[1] = MISSING            # a placeholder, dropped by the list's change handler (if it runs)
+        else:
+          del node['items'][i]
+        return True
+      same = (not is_node(it[1]) and not is_node(v) and not is_missing(it[1]) and it[1] == v and type(it[1]) == type(v))
       it[1] = v
-      return
+      return not same
+  if is_missing(v):
+    return False
   if node['k'] == 'list':
     key = len(node['items'])
   node['items'].append([key, v])
+  return True
+
+
+def purge_chains(t, paths):
+  """What the change handlers of the lists on the way to the updated nodes do: drop MISSING_VALUE
+  placeholders and re-index (deepest nodes first: the keys of `paths` are the ones before the purge)."""
+  prefixes = {tuple(p[:i]) for p in paths for i in range(len(p) + 1)}
+  for pre in sorted(prefixes, key=len, reverse=True):
+    n = get_at(t, list(pre))
+    if is_node(n) and n['k'] == 'list' and any(is_missing(v) for _, v in n['items']):
+      n['items'] = [[i, v] for i, v in enumerate(v for _, v in n['items'] if not is_missing(v))]
 
 
 def mirror(t, step):
@@ -154,6 +181,22 @@ def mirror(t, step):
   node = get_at(t, step['recv'])
   c = step['call']
   n = c['name']
+  notified = bool(step.get('notify', True)) and not c.get('skip') and n != 'update'
+  if n == 'rebind':
+    pairs = c['pairs']
+    if node['k'] == 'list':       # List._sym_rebind applies the pairs in descending path order
+      pairs = sorted(pairs, key=lambda pv: key_cmp_tuple(pv[0]), reverse=True)
+    changed = [mirror_write(get_at(node, p[:-1]), p[-1], v) for p, v in pairs]
+    if notified and any(changed):
+      purge_chains(t, [step['recv'] + p[:-1] for (p, _), ch in zip(pairs, changed) if ch])
+    return
+  before = json.dumps(node)
+  _mirror_call(node, c, n)
+  if notified and json.dumps(node) != before:
+    purge_chains(t, [step['recv']])
+
+
+def _mirror_call(node, c, n):
   if n == 'setkey':
     mirror_write(node, c['key'], c['v'])
   elif n == 'delkey':
@@ -294,7 +337,7 @@ def build(t):
   nid = t.get('id', 0)
   cb = None
   if t.get('sub') and t['k'] != 'obj':
-    cb = lambda updates, _id=nid: LOG.append((_id, updates))
+    cb = lambda updates, _id=nid: on_event(_id, updates)
   if t['k'] == 'list':
     v = pg.List([build(c) for _, c in t['items']], onchange_callback=cb)
   elif t['k'] == 'dict':
@@ -377,6 +420,17 @@ def facts(n, names=None):
       'pure': bool(n.sym_puresymbolic),
       'deterministic': bool(n.is_deterministic),
   }
+
+
+def has_placeholder(root):
+  """Does a pg.List of the tree hold a MISSING_VALUE placeholder (left by a silent rebind that deleted
+  an item: known finding C02-F03)? Such a tree does not survive the JSON round trip that serves as the
+  reference for "fresh computation"; its reads are still compared with the model."""
+  import pyglove as pg
+  for _, n in sym_nodes(root):
+    if isinstance(n, pg.List) and any(pg.MISSING_VALUE == v and not isinstance(v, pg.Symbolic) for v in n.sym_values()):
+      return True
+  return False
 
 
 def read_all(root):
@@ -526,11 +580,34 @@ def do_call(node, c):
 
 
 def canon_log(log):
-  out = []
-  for rid, updates in log:
-    out.append({'recv': rid, 'entries': [[list(k.keys), canon(u.old_value), canon(u.new_value)]
-                                         for k, u in updates.items()]})
-  return out
+  return [{'recv': e['recv'], 'entries': e['entries']} for e in log]
+
+
+# Re-entrant handlers: what the handler of a node does when it is told about a change.
+REACT = {}        # node id -> {'recv': path from the root, 'call': call}
+RSTATE = {'root': None, 'fuel': 0, 'depth': 0, 'stack': [0], 'next': 1, 'calls': []}
+
+
+def on_event(rid, updates):
+  """Every handler of the harness: log the event (canonicalised at once, tagged with the call it
+  belongs to), then -- if the case says so and the nesting bound is not reached -- issue the nested call."""
+  LOG.append({'recv': rid, 'call': RSTATE['stack'][-1],
+              'entries': [[list(k.keys), canon(u.old_value), canon(u.new_value)] for k, u in updates.items()]})
+  r = REACT.get(rid)
+  if r is None or RSTATE['depth'] >= RSTATE['fuel']:
+    return
+  cid = RSTATE['next']
+  RSTATE['next'] += 1
+  RSTATE['depth'] += 1
+  RSTATE['stack'].append(cid)
+  rec = {'id': cid, 'parent': RSTATE['stack'][-2], 'by': rid, 'recv': r['recv'], 'call': r['call'],
+         'pre': canon(RSTATE['root'])}
+  RSTATE['calls'].append(rec)
+  try:
+    do_call(navigate(RSTATE['root'], r['recv']), r['call'])
+  finally:
+    RSTATE['stack'].pop()
+    RSTATE['depth'] -= 1
 
 
 # ------------------------------------------------------------------------------------------
@@ -542,6 +619,7 @@ class Gen:
     self.r = rng
     self.next_id = 1
     self.no_obj = False
+    self.deletes = False
 
   def atom(self):
     r = self.r
@@ -689,7 +767,10 @@ class Gen:
       if any(loc[:len(q)] == q or q[:len(loc)] == loc for q in seen):
         continue
       seen.append(loc)
-      pairs.append([list(loc), self.value(old)])
+      if self.deletes and old is not None and p['k'] in ('dict', 'list') and r.chance(0.35):
+        pairs.append([list(loc), MISSING])        # rebind(path -> MISSING_VALUE) deletes
+      else:
+        pairs.append([list(loc), self.value(old)])
     if not pairs:
       k, old = self.target(node)
       if k is None:
@@ -703,6 +784,7 @@ class Gen:
     r = self.r
     self.next_id = 1
     self.no_obj = r.chance(0.4)
+    self.deletes = r.chance(0.3)
     t = self.tree(r.randint(1, 3), None, r.choice([0.3, 0.6, 1.0]))
     shadow = json.loads(json.dumps(t))
     steps = []
@@ -717,6 +799,8 @@ class Gen:
           step['notify'] = True        # notify-off + shrinking slice leaves MISSING placeholders (C02-F03)
       steps.append(step)
       mirror(shadow, json.loads(json.dumps(step)))
+      if any(is_node(n_) and n_['k'] == 'list' and any(is_missing(v_) for _, v_ in n_['items']) for _, n_ in all_nodes(shadow)):
+        break     # a silent rebind left a placeholder in a list (C02-F03): what other list calls do with it is C02's
     return {'tree': t, 'steps': steps}
 
 
@@ -775,6 +859,10 @@ class C09(Prop):
           'everything; the same on typed trees (500 histories) whose objects have schema-bound nested '
           'Dict / object fields with defaults and required fields, so that sym_nondefault() is a snapshot memoised at '
           'the object only -- reads (sym_nondefault, sym_missing) are compared with the model on all of them. '
+          '300 histories of rebinds that delete List items / Dict keys (path -> MISSING_VALUE), silent and notified, on '
+          'lists with callbacks; 400 histories with re-entrant handlers (subscribing nodes that answer every event '
+          'with a call of their own on themselves / a descendant / an ancestor, nesting bound 1-3; log entries are '
+          'tagged with the call they belong to and every call is judged on its own). '
           'Object classes form the hierarchy Plain -> Mid -> Sub (only Sub overrides _on_change) and are created '
           'afresh for every case. A second, oracle-only stream inserts partial objects, pure-symbolic and non-deterministic values. '
           'Non-trivial: some node on the path from the root to a written location subscribes; distinct by JSON.')
@@ -786,7 +874,10 @@ class C09(Prop):
       'two memos per node (nondefault, missing) against the value specs of the harness classes (fields with '
       'defaults incl. container / object defaults, required fields, schema-bound nested Dicts); the memo of a '
       'schema-bound node is modelled as a flattened snapshot; _sym_puresymbolic / is_deterministic are oracle-only; '
-      'writes whose value a spec would transform or reject are not generated (C03); notify_parents=False, handlers that mutate during notification, _on_parent_change / '
+      'writes whose value a spec would transform or reject are not generated (C03); a nested call issued by a handler '
+      'is modelled as running on the tree with the outer call completely applied (memos reset, placeholders dropped): '
+      'handlers that react are not combined with deleting rebinds; nested calls put atoms at leaf locations; '
+      'notify_parents=False, _on_parent_change / '
       '_on_path_change and value specs are outside the model; a shrinking slice assignment inside '
       'notify_on_change(False) leaves MISSING_VALUE placeholders (known finding C02-F03) and is neither generated '
       'nor modelled',
@@ -806,6 +897,10 @@ class C09(Prop):
     for c in self.read_cases(rng, 700 if tier == 'quick' else 14000):
       yield c
     for c in self.typed_read_cases(rng, 500 if tier == 'quick' else 10000):
+      yield c
+    for c in self.silent_delete_cases(rng, 300 if tier == 'quick' else 6000):
+      yield c
+    for c in self.reentrant_cases(rng, 400 if tier == 'quick' else 8000):
       yield c
     for c in self.facts_cases(rng, 150 if tier == 'quick' else 3000):
       yield c
@@ -946,6 +1041,119 @@ class C09(Prop):
       steps.append({'read': [[p, list(FACTS)] for p, _ in all_nodes(shadow)]})
       yield {'tree': t, 'steps': steps, 'reads': 'chosen'}
 
+  def silent_delete_cases(self, rng, n):
+    """Lists WITH an onchange_callback (and subscribing ancestors) under rebinds that delete items
+    (path -> MISSING_VALUE), single and batched, issued on the list or on an ancestor: silent
+    (skip_notification=True, or inside notify_on_change(False)) -- nobody may hear anything, an
+    invocation with an empty dict counts -- and notified ones, followed by further calls."""
+    g = Gen(rng)
+    made = 0
+    for _ in range(n * 6):
+      if made >= n:
+        break
+      g.next_id = 1
+      g.no_obj = rng.chance(0.5)
+      g.deletes = False
+      t = g.tree(rng.randint(1, 3), rng.choice(['dict', 'list', 'obj']), 1.0)
+      lists = [(p, x) for p, x in all_nodes(t) if x['k'] == 'list' and x['items']]
+      if not lists:
+        continue
+      shadow = json.loads(json.dumps(t))
+      steps = []
+      for i in range(rng.randint(1, 3)):
+        lists = [(p, x) for p, x in all_nodes(shadow) if x['k'] == 'list' and x['items']]
+        if not lists:
+          break
+        lpath, l = rng.choice(lists)
+        cut = rng.randint(0, len(lpath))
+        recv, rel = lpath[:cut], lpath[cut:]
+        idxs = rng.sample(range(len(l['items'])), rng.randint(1, min(2, len(l['items']))))
+        pairs = [[rel + [j], MISSING] for j in sorted(idxs)]
+        rnode = get_at(shadow, recv)
+        if rng.chance(0.4):
+          k, old = g.target(rnode)
+          if k is not None and all(([k] != p_[:1]) for p_, _ in pairs):
+            pairs.append([[k], g.value(old)])
+        if rnode['k'] == 'list':
+          pairs.sort(key=lambda pv: key_cmp_tuple(pv[0]))
+        mode = rng.below(3)
+        call = {'name': 'rebind', 'pairs': pairs}
+        step = {'recv': recv, 'notify': mode != 1, 'call': call}
+        if mode == 0:
+          call['skip'] = True
+        steps.append(step)
+        mirror(shadow, json.loads(json.dumps(step)))
+      if steps:
+        made += 1
+        yield {'tree': t, 'steps': steps}
+
+  def reentrant_cases(self, rng, n):
+    """Handlers that mutate during notification: some subscribing nodes react to every event they
+    receive with a call of their own -- on themselves, on a descendant, on an ancestor or elsewhere --
+    up to a nesting depth `fuel`. All writes (outer and nested) put atoms at leaf locations, so the
+    subscribers stay where they are."""
+    g = Gen(rng)
+    def atom_locs(node, path=()):
+      out = []
+      for p_, x in all_nodes(node):
+        for k, c in x['items']:
+          if not is_node(c):
+            out.append(list(p_) + [k])
+        if x['k'] == 'dict':
+          out.append(list(p_) + [rng.choice(['r1', 'r2'])])
+      return out
+    made = 0
+    for _ in range(n * 5):
+      if made >= n:
+        break
+      g.next_id = 1
+      g.no_obj = rng.chance(0.4)
+      g.deletes = False
+      t = g.tree(rng.randint(2, 3), None, rng.choice([0.7, 1.0]))
+      nodes = all_nodes(t)
+      subs = [(p_, x) for p_, x in nodes if x['sub']]
+      locs = atom_locs(t)
+      if not subs or not locs:
+        continue
+      react = []
+      for p_, x in rng.sample(subs, rng.randint(1, min(3, len(subs)))):
+        how = rng.below(4)
+        if how == 0:
+          cands = [l for l in locs if l[:-1] == list(p_)]                         # on itself
+        elif how == 1:
+          cands = [l for l in locs if l[:len(p_)] == list(p_) and len(l) > len(p_) + 1]   # on a descendant
+        elif how == 2:
+          cands = [l for l in locs if list(p_)[:len(l) - 1] == l[:-1] and len(l) - 1 < len(p_)]   # on an ancestor
+        else:
+          cands = locs
+        if not cands:
+          cands = locs
+        loc = rng.choice(cands)
+        if rng.chance(0.7):
+          call = {'name': 'setkey', 'key': loc[-1], 'v': g.atom()}
+          rrecv = loc[:-1]
+        else:
+          cut = rng.randint(0, len(loc) - 1)
+          rrecv, call = loc[:cut], {'name': 'rebind', 'pairs': [[loc[cut:], g.atom()]]}
+        react.append([x['id'], rrecv, call])
+      steps = []
+      for _ in range(rng.randint(1, 3)):
+        loc = rng.choice(locs)
+        if rng.chance(0.5):
+          step = {'recv': loc[:-1], 'notify': rng.chance(0.9), 'call': {'name': 'setkey', 'key': loc[-1], 'v': g.atom()}}
+        else:
+          cut = rng.randint(0, len(loc) - 1)
+          pairs = [[loc[cut:], g.atom()]]
+          for l2 in rng.sample(locs, min(2, len(locs))):
+            if l2[:cut] == loc[:cut] and all(l2[cut:] != p_ for p_, _ in pairs) and rng.chance(0.5):
+              pairs.append([l2[cut:], g.atom()])
+          if get_at(t, loc[:cut])['k'] == 'list':
+            pairs.sort(key=lambda pv: key_cmp_tuple(pv[0]))
+          step = {'recv': loc[:cut], 'notify': rng.chance(0.9), 'call': {'name': 'rebind', 'pairs': pairs}}
+        steps.append(step)
+      made += 1
+      yield {'tree': t, 'steps': steps, 'react': react, 'fuel': rng.choice([1, 1, 2, 3])}
+
   def facts_cases(self, rng, n):
     g = Gen(rng)
     for _ in range(n):
@@ -1042,6 +1250,9 @@ class C09(Prop):
         s_['notify'] = False                       # rebind(skip_notification=True): nobody is notified
       steps.append(s_)
     req = {'op': 'run', 'tree': annotate(case['tree']), 'steps': steps}
+    if case.get('react'):
+      req['react'] = [[rid, rpath, rcall] for rid, rpath, rcall in case['react']]
+      req['fuel'] = case.get('fuel', 0)
     if case.get('reads') == 'chosen':
       req['reads'] = 'chosen'
     return req
@@ -1053,6 +1264,10 @@ class C09(Prop):
     del LOG[:]
     OBJ_IDS.clear()
     root = build(case['tree'])
+    REACT.clear()
+    for rid, rpath, rcall in case.get('react', []):
+      REACT[rid] = {'recv': rpath, 'call': rcall}
+    RSTATE.update(root=root, fuel=case.get('fuel', 0), depth=0)
     chosen = case.get('reads') == 'chosen'
     if not chosen:
       read_all(root)
@@ -1062,6 +1277,7 @@ class C09(Prop):
       pre = canon(root)
       del LOG[:]
       del BOUND[:]
+      RSTATE.update(depth=0, stack=[0], next=1, calls=[])
       if 'read' in step:
         outs.append(self.impl_read(case, root, step, pre))
         continue
@@ -1079,16 +1295,19 @@ class C09(Prop):
           ok = False
           err = type(e).__name__
       events = canon_log(LOG)
+      tagged = [dict(e) for e in LOG]
+      nested = list(RSTATE['calls'])
       bound = list(BOUND)
       if chosen:
         outs.append({'ok': ok, 'err': err, 'events': events, 'reads': [], 'value': canon(root), 'pre': pre, 'stale': [],
-                     'bound': bound})
+                     'bound': bound, 'tagged': tagged, 'nested': nested})
         continue
       got = read_all(root)
-      want = recomputed(root)
+      placeholders = has_placeholder(root)
+      want = [] if placeholders else recomputed(root)
       stale = []
       wmap = {json.dumps(p): f for p, f in want}
-      for p, f in got:
+      for p, f in ([] if placeholders else got):
         w = wmap.get(json.dumps(p))
         if w is None:
           stale.append([p, ['<node missing in copy>']])
@@ -1098,7 +1317,8 @@ class C09(Prop):
             stale.append([p, bad])
       with_reads = not case.get('facts_only')
       outs.append({'ok': ok, 'err': err, 'events': events, 'reads': leafmap_reads(root) if with_reads else [],
-                   'value': canon(root), 'pre': pre, 'stale': stale, 'bound': bound})
+                   'value': canon(root), 'pre': pre, 'stale': stale, 'bound': bound, 'tagged': tagged,
+                   'nested': nested})
     model = {'steps': [{'ok': o['ok'], 'events': o['events'], 'reads': o['reads'], 'value': o['value']} for o in outs]}
     return {'model': model, 'steps': outs}
 
@@ -1106,7 +1326,8 @@ class C09(Prop):
     """A `read` step: the chosen facts of the chosen nodes, through the public accessors, compared with
     the same facts of a JSON round-tripped copy (a fresh computation on the current contents)."""
     import pyglove as pg
-    copy = pg.from_json(pg.to_json(root), allow_partial=True)
+    placeholders = has_placeholder(root)
+    copy = root if placeholders else pg.from_json(pg.to_json(root), allow_partial=True)
     stale, reads = [], []
     for path, names in step['read']:
       try:
@@ -1115,7 +1336,8 @@ class C09(Prop):
         continue
       if not isinstance(n, pg.Symbolic):
         continue
-      got, want = facts(n, names), facts(c, names)
+      got = facts(n, names)
+      want = got if placeholders else facts(c, names)
       bad = sorted(k for k in got if got[k] != want[k])
       if bad:
         stale.append([path, bad])
@@ -1158,6 +1380,11 @@ class C09(Prop):
                                         json.dumps(last['call'])[:160] if last else 'construction', o['stale'][:3])}
         continue
       last = step
+      if case.get('react'):
+        f = self.oracle_react(case, step, o)
+        if f:
+          return f
+        continue
       f = self.oracle_step(case, tree, step, o)
       if f:
         return f
@@ -1225,6 +1452,33 @@ class C09(Prop):
     if name in LIST_EDITS or name in LIST_MOVES or (name == 'clear' and get_at(tree, step['recv'])['k'] == 'list'):
       f = self.oracle_list_edit(tree, step, o, events, sub_nodes)
       return f or self.oracle_order(events, sub_nodes)
+    # rebind(path -> MISSING_VALUE) on List items: the items behind a deleted one move up when the list's
+    # handler drops the placeholder; the report names the position the item had before the call
+    deleted = []
+    if name == 'rebind':
+      for p_, v_ in step['call']['pairs']:
+        par = get_at(tree, step['recv'] + p_[:-1])
+        if is_missing(v_) and is_node(par) and par['k'] == 'list':
+          deleted.append(step['recv'] + p_)
+    # ... and so do the items behind a placeholder that an earlier silent rebind left in a list on the way
+    moved = bool(deleted)
+    for i in range(len(step['recv']) + 1):
+      n_ = get_at(tree, step['recv'][:i])
+      if is_node(n_) and n_['k'] == 'list' and any(is_missing(v_) for _, v_ in n_['items']):
+        moved = True
+    if name == 'rebind':
+      for p_, _ in step['call']['pairs']:
+        for i in range(len(p_)):
+          n_ = get_at(tree, step['recv'] + p_[:i])
+          if is_node(n_) and n_['k'] == 'list' and any(is_missing(v_) for _, v_ in n_['items']):
+            moved = True
+    if moved:
+      want_tree = json.loads(json.dumps(tree))
+      mirror(want_tree, json.loads(json.dumps(step)))
+      if canon_json(want_tree) != o['value']:
+        return {'signature': 'rebind-delete-result',
+                'what': '%s left %s, expected %s' % (json.dumps(step['call'])[:150], json.dumps(o['value'])[:250],
+                                                     json.dumps(canon_json(want_tree))[:250])}
     # payload: true old / new values at the reported locations
     reported = {}
     for e in events:
@@ -1233,7 +1487,13 @@ class C09(Prop):
       for rel, old, new in e['entries']:
         loc = rp + rel
         locs.append(loc)
-        if canon_at(o['value'], loc) != new or canon_at(o['pre'], loc) != old:
+        if loc in deleted:
+          ok_new = new == MISSING
+        elif moved:
+          ok_new = True          # positions behind a deleted item have moved: the result is checked as a whole
+        else:
+          ok_new = canon_at(o['value'], loc) == new
+        if not ok_new or canon_at(o['pre'], loc) != old:
           return {'signature': 'wrong-payload',
                   'what': 'receiver %s at %s got (%s: %s -> %s) but the tree has %s -> %s there' % (
                       e['recv'], rp, rel, old, new, canon_at(o['pre'], loc), canon_at(o['value'], loc))}
@@ -1242,7 +1502,7 @@ class C09(Prop):
     changed = [c[0] for c in _diff(o['pre'], o['value'])]
     written = self.written_locations(tree, step, o)
     for nid, rp in sub_nodes.items():
-      below = [l for l in written if l[:len(rp)] == rp and len(l) > len(rp) and self.really_written(o, l)]
+      below = [l for l in written if l[:len(rp)] == rp and len(l) > len(rp) and self.really_written(o, l, tree, step, deleted, moved)]
       got = reported.get(nid)
       if below and got is None:
         return {'signature': 'missing-event', 'what': 'subscribing node %s at %s got no event for %s' % (nid, rp, below)}
@@ -1250,10 +1510,66 @@ class C09(Prop):
         if sorted(map(json.dumps, got)) != sorted(map(json.dumps, below)):
           return {'signature': 'wrong-locations',
                   'what': 'node %s at %s was told %s, written locations below it: %s' % (nid, rp, got, below)}
-    for c in changed:
+    for c in ([] if moved else changed):
       if not any(c[:len(w)] == w for w in written):
         return {'signature': 'unreported-change', 'what': 'location %s changed but was not written by the call' % c}
     return self.oracle_order(events, sub_nodes)
+
+  def oracle_react(self, case, step, o):
+    """Re-entrant handlers: every call of the nesting -- the outer one and each call issued by a
+    handler -- is judged on its own: each subscribing ancestor-or-self of what THAT call wrote gets
+    exactly one event of it (the node whose handler issued the call included), with exactly the
+    locations below it and their old / new values, children before parents; nobody else hears of it."""
+    subs = {n['id']: p for p, n in all_nodes(case['tree']) if n['sub']}
+    tagged = o.get('tagged', [])
+    if not step['notify'] or not o['ok']:
+      if tagged:
+        return {'signature': 'event-while-silent:' + step['call']['name'],
+                'what': 'events %s delivered although notification is disabled / the call failed' % tagged[:2]}
+      return None
+    calls = [{'id': 0, 'recv': step['recv'], 'call': step['call'], 'pre': o['pre'], 'by': None}] + o.get('nested', [])
+    known = {c['id'] for c in calls}
+    for e in tagged:
+      if e['call'] not in known or e['recv'] not in subs:
+        return {'signature': 'event-to-stranger', 'what': 'event %s belongs to no call / receiver of the case' % e}
+    for c in calls:
+      tag = 'nested-' if c['id'] else ''
+      cc = c['call']
+      if cc['name'] == 'setkey':
+        writes = [(c['recv'] + [cc['key']], cc['v'])]
+      else:
+        writes = [(c['recv'] + p_, v_) for p_, v_ in cc['pairs']]
+      really = [(l, canon_at(c['pre'], l), v) for l, v in writes if canon_at(c['pre'], l) != v]
+      mine = [e for e in tagged if e['call'] == c['id']]
+      ids = [e['recv'] for e in mine]
+      if len(set(ids)) != len(ids):
+        return {'signature': tag + 'duplicate-event', 'what': 'call %s (issued by the handler of %s): receivers %s' % (
+            json.dumps(cc)[:100], c['by'], ids)}
+      for nid, rp in subs.items():
+        below = [(l, a, b) for l, a, b in really if l[:len(rp)] == rp and len(l) > len(rp)]
+        got = [e for e in mine if e['recv'] == nid]
+        if below and not got:
+          return {'signature': tag + 'missing-event',
+                  'what': 'the call %s at %s%s wrote %s below the subscribing node %s at %s, which got no event for it' % (
+                      json.dumps(cc)[:100], c['recv'], ' (issued by the handler of node %s)' % c['by'] if c['id'] else '',
+                      [l for l, _, _ in below], nid, rp)}
+        if got:
+          want = sorted(json.dumps([l[len(rp):], a, b]) for l, a, b in below)
+          if sorted(json.dumps(x) for x in got[0]['entries']) != want:
+            return {'signature': tag + ('wrong-payload' if below else 'event-to-bystander'),
+                    'what': 'call %s at %s: node %s at %s was told %s, expected %s' % (
+                        json.dumps(cc)[:100], c['recv'], nid, rp, got[0]['entries'], want)}
+      pos = {e['recv']: i for i, e in enumerate(mine)}
+      for a in pos:
+        for b in pos:
+          pa, pb = subs[a], subs[b]
+          if len(pb) > len(pa) and pb[:len(pa)] == pa and pos[b] > pos[a]:
+            return {'signature': tag + 'parent-before-child', 'what': 'call %s: %s before %s' % (json.dumps(cc)[:80], a, b)}
+    objs = {n['id'] for _, n in all_nodes(case['tree']) if n['sub'] and n['k'] not in ('dict', 'list')}
+    want = sorted(e['recv'] for e in tagged if e['recv'] in objs)
+    if sorted(o.get('bound', [])) != want:
+      return {'signature': 'on-bound-count', 'what': 'events to objects %s, _on_bound ran for %s' % (want, sorted(o.get('bound', [])))}
+    return None
 
   def oracle_order(self, events, sub_nodes):
     # order: a receiver after all receivers below it
@@ -1310,8 +1626,16 @@ class C09(Prop):
                     json.dumps(c)[:120], recv, nid, rp, json.dumps(mine)[:300], exp[:6])}
     return None
 
-  def really_written(self, o, loc):
+  def really_written(self, o, loc, tree=None, step=None, deleted=(), moved=False):
     """A write of an identical atom (`old is new`) produces no update."""
+    if moved and step['call']['name'] == 'rebind':
+      # decided on the values handed in (the positions of the result have moved)
+      old = canon_at(o['pre'], loc)
+      v = [v_ for p_, v_ in step['call']['pairs'] if step['recv'] + p_ == loc][0]
+      if is_missing(v):
+        return old != MISSING
+      new = canon_json(v)
+      return not (old == new and not isinstance(new, list))
     old, new = canon_at(o['pre'], loc), canon_at(o['value'], loc)
     return not (old == new and not isinstance(new, list))
 
@@ -1359,6 +1683,10 @@ class C09(Prop):
     h = ['steps:%d' % len(case['steps']), 'stream:' + ('facts' if case.get('facts_only') else 'modelled')]
     if case.get('reads') == 'chosen':
       h.append('reads:chosen')
+    if case.get('react'):
+      h.append('re-entrant handlers: fuel %d' % case.get('fuel', 0))
+      for o in out['steps']:
+        h.append('nested-calls:%d' % min(len(o.get('nested', [])), 6))
     for s, o in zip(case['steps'], out['steps']):
       if 'read' in s:
         h.append('op:read')
